@@ -91,7 +91,9 @@ def WS.doRemove (s : WS) (o : Nat) (c : CompId) : WS × List SCb :=
     if !before.contains c then (s, []) else
     let after := closed s.deps (Mask.erase before c)
     if after == before then (s, []) else
-    (s.setEnt o (some { e with comps := rebuild info (e.comps.filter (·.1 != c)) after [] }), cbDiff info o before after)
+    -- `c` can come back through the closure (its master is present and the set was not closed before): it is carried over
+    (s.setEnt o (some { e with comps := rebuild info (if after.contains c then e.comps else e.comps.filter (·.1 != c)) after [] }),
+     cbDiff info o before after)
 
 def WS.doDestroy (s : WS) (o : Nat) : WS × List SCb :=
   match s.alive o with
